@@ -332,8 +332,7 @@ Definition cb_count (o : list out) : Z := len (filter is_cb o).
 Definition net_count (evs : list ev) : Z := len (filter is_net evs).
 Definition ev_ok (e : ev) : Prop :=
   match e with
-  | Recv b => bytes_ok b /\ len b < 65536       (* the length parameter of the receive callback is an unsigned short *)
-  | Resolve name => bytes_ok name
+  | Recv b => len b < 65536       (* the length parameter of the receive callback is an unsigned short *)
   | _ => True
   end.
 
